@@ -79,7 +79,7 @@ class Report:
 
     def finish(self, coverage, assumptions, max_inconclusive=0):
         wall = time.time() - self.t0
-        rdir = os.path.join(VERIF, 'replays', self.prop)
+        rdir = os.path.join(VERIF, 'replays', self.prop + ('-exp%d' % os.getpid() if os.environ.get('VERIF_NO_EVIDENCE') else ''))
         rc = 0
         out = []
         for fid, obls in sorted(self.known.items()):
@@ -108,8 +108,13 @@ class Report:
         cov['inconclusive_reasons'] = sorted({str(r)[:160] for _, r in self.inconclusive})[:8]
         ev = {'property_id': self.prop, 'tier': self.tier, 'seed': seed(), 'level': self.level, 'coverage': cov,
               'assumptions': assumptions, 'wall_s': round(wall, 2), 'violations': len(self.violations), 'exit_code': rc}
-        os.makedirs(os.path.join(VERIF, 'evidence'), exist_ok=True)
-        with open(os.path.join(VERIF, 'evidence', self.prop + '.json'), 'w') as fh:
+        evdir = os.path.join(VERIF, 'evidence')
+        if os.environ.get('VERIF_NO_EVIDENCE'):
+            # experiments against a modified copy of the repository (seeded changes) must not overwrite the evidence
+            import tempfile
+            evdir = tempfile.mkdtemp(prefix='verif-ev-')
+        os.makedirs(evdir, exist_ok=True)
+        with open(os.path.join(evdir, self.prop + '.json'), 'w') as fh:
             json.dump(ev, fh, indent=1, default=str)
         for l in out:
             print(l)
